@@ -403,7 +403,7 @@ func genCase(t *rapid.T) Case {
 				}
 			} else {
 				tm.Sid = rapid.SampledFrom([]uint32{0, 1, 2, 1<<32 - 1, 0x01020304}).Draw(t, "sid")
-				tm.Type = rapid.SampledFrom([]uint8{8, 9, 18, 20, 3, 6, 2, 22, 0, 255, 4, 5}).Draw(t, "type")
+				tm.Type = rapid.SampledFrom([]uint8{8, 9, 18, 20, 3, 6, 22, 0, 255, 4, 5}).Draw(t, "type") // no Abort (type 2): statement
 				tm.Len = genLen(t, chunk)
 			}
 			tm.Fill = rapid.Uint64().Draw(t, "fill")
@@ -411,9 +411,12 @@ func genCase(t *rapid.T) Case {
 			case 4:
 				tm.Body = append([]byte{0, byte(rapid.SampledFrom([]int{0, 1, 2, 4, 6, 7}).Draw(t, "evt"))}, rtmpx.Fill(4, tm.Fill)...)
 				tm.Len = 6
-			case 5:
-				tm.Body = rtmpx.Fill(4, tm.Fill)
+			case 5, 3:
+				tm.Body = rtmpx.Fill(4, tm.Fill) // Window Acknowledgement Size / Acknowledgement
 				tm.Len = 4
+			case 6:
+				tm.Body = append(rtmpx.Fill(4, tm.Fill), byte(tm.Fill%3)) // Set Peer Bandwidth
+				tm.Len = 5
 			}
 		}
 		if l.ok && rapid.IntRange(0, 4).Draw(t, "tsrel") > 0 {
